@@ -298,7 +298,8 @@ var optVariants = []*OptVariant{
 		Name: "allow-missing-file-header", Flag: "AllowMissingFileHeader", Level: "file", Base: anyFile,
 		set: func(o *ach.ValidateOpts) { o.AllowMissingFileHeader = true },
 		damage: func(r *rng.R, g *ach.File) bool {
-			g.Header = ach.FileHeader{}
+			// what ach.Reader leaves in File.Header when the text has no file header record
+			g.Header = ach.NewFileHeader()
 			return true
 		},
 	},
@@ -504,16 +505,10 @@ var optVariants = []*OptVariant{
 					if ok && r.Bool() {
 						continue
 					}
-					switch {
-					case e.Addenda99 != nil:
-						e.Addenda99.ReturnCode = code()
-					case e.Addenda99Dishonored != nil:
-						e.Addenda99Dishonored.DishonoredReturnReasonCode = code()
-					case e.Addenda99Contested != nil:
-						e.Addenda99Contested.ContestedReturnCode = code()
-					default:
+					if e.Addenda99 == nil {
 						continue
 					}
+					e.Addenda99.ReturnCode = code()
 					ok = true
 				}
 				for _, e := range b.GetADVEntries() {
